@@ -24,7 +24,8 @@ class C01:
             "distinct = distinct event-log digest")
     assumptions = ["components are seeded / deterministic as the property requires",
                    "worker processes are simulated: interleavings of their primitive operations stand for OS schedules",
-                   "optional packages (numpy, vowpalwabbit, torch, cloudpickle) are absent"]
+                   "optional packages (numpy, vowpalwabbit, torch, cloudpickle) are absent; experiments that the multi-process path explicitly "
+                   "refuses because a component cannot be pickled with the standard pickler are skipped (counted)"]
     real_components = ["coba.experiments.Experiment.run", "MakeTasks", "ChunkTasks", "ProcessTasks", "CobaMultiprocessor",
                        "Multiprocessor", "TransactionEncode/Decode/Result", "ListSink/ListSource", "SafeLearner/SafeEnvironment/SafeEvaluator",
                        "SequentialCB", "environment filters", "built-in learners", "loggers"]
@@ -55,6 +56,9 @@ class C01:
             v = vio(outcome, f"{outcome} in Experiment.run under config {cfg['config']}: {sim.outcome_info}")
         elif "exc" in sim.result:
             v = vio("run_raised", f"Experiment.run raised under config {cfg['config']}: {sim.result['exc']!r}\n{sim.result.get('tb','')[-1500:]}")
+        elif X.refused_to_pickle(log2):
+            out["counters"]["skipped_not_picklable_without_cloudpickle"] = 1
+            out["nontrivial"] = False
         else:
             t_sim = X.tables(res)
             d = X.diff_tables(t_ref, t_sim)
@@ -95,7 +99,7 @@ def shrink_spec_cfg(cfg):
         for oi in range(len(g["ops"]) - 1, -1, -1):
             c = copy.deepcopy(cfg); del c["spec"]["envs"][gi]["ops"][oi]; yield c
         for key in ("n_interactions", "n"):
-            if key in g["src"][1] and g["src"][1][key] and g["src"][1][key] > 2:
+            if key in g["src"][1] and isinstance(g["src"][1][key], int) and g["src"][1][key] > 2:
                 c = copy.deepcopy(cfg); c["spec"]["envs"][gi]["src"][1][key] = max(2, g["src"][1][key] // 2); yield c
         for oi, (name, a) in enumerate(g["ops"]):
             if name == "shuffle_n" and a["n"] > 1:
